@@ -32,6 +32,7 @@ class Session:
         self.fired = []
         self.ev = []
         self.nd = 0
+        self.nested = []
 
     def _cb(self, d):
         def ok(reply):
@@ -52,7 +53,7 @@ class Session:
             self.fired.append([0, 1003])
         return list(self.fired)
 
-    def execute(self, uid, addr):
+    def execute(self, uid, addr, retry_in_errback=False):
         self.nd += 1
         d = self.nd
         self.tr.clear()
@@ -60,7 +61,14 @@ class Session:
         def go():
             df = self.p.execute(ReadHoldingRegistersRequest(addr, 1, unit=uid))
             ok, err = self._cb(d)
-            df.addCallbacks(ok, err)
+            if retry_in_errback:
+                # application retry logic: when the request fails, issue it again from inside the errback
+                def err2(f, err=err):
+                    err(f)
+                    self.nested.append((uid, addr))
+                df.addCallbacks(ok, err2)
+            else:
+                df.addCallbacks(ok, err)
         fired = self._guard(go)
         w = self.tr.value()
         tid = struct.unpack(">H", w[:2])[0] if (self.variant == "dict" and len(w) >= 2) else (-1 if not w else 0)
@@ -96,7 +104,32 @@ class Session:
             self.ev.append({"op": "reply", "tid": t, "uid": u, "fired": mine, "pieces": [-len(items)]})
 
     def lost(self):
-        self.ev.append({"op": "lost", "fired": self._guard(lambda: self.p.connectionLost(Failure(ConnectionDone())))})
+        # requests re-issued from errbacks run *inside* connectionLost(): they are issued after the loss and must fail at once
+        inner = []
+        orig = self.nested
+
+        class L(list):
+            def append(l, item):            # noqa: N805
+                uid, addr = item
+                self.nd += 1
+                d2 = self.nd
+                before = len(self.fired)
+                w0 = len(self.tr.value())
+                try:
+                    df = self.p.execute(ReadHoldingRegistersRequest(addr, 1, unit=uid))
+                    ok, err = self._cb(d2)
+                    df.addCallbacks(ok, err)
+                except Exception:
+                    self.fired.append([0, 1003])
+                mine = [f for f in self.fired[before:] if f[0] == d2]
+                for f in mine:
+                    self.fired.remove(f)
+                inner.append({"op": "exec", "d": d2, "uid": uid, "tid": -1 if len(self.tr.value()) == w0 else 0, "fired": mine})
+        self.nested = L()
+        fired = self._guard(lambda: self.p.connectionLost(Failure(ConnectionDone())))
+        self.nested = orig
+        self.ev.append({"op": "lost", "fired": fired})
+        self.ev.extend(inner)
 
     def wrap(self, to):
         self.p.transaction.tid = to
@@ -116,7 +149,7 @@ def history(tid, variant, rng, tier):
         c = rng.random()
         if (c < 0.45 and issued < n) or not out and issued < n:
             uid = rng.choice([1, 1, 2]) if variant == "fifo" else rng.choice([1, 2, 17])
-            d, t = s.execute(uid, rng.randint(0, 100))
+            d, t = s.execute(uid, rng.randint(0, 100), retry_in_errback=(rng.random() < 0.25))
             issued += 1
             if not lost and t != -1:
                 out[d] = (t, uid)
